@@ -34,6 +34,7 @@ inductive Val (ω : Type) where
   | str (s : String)
   | obs (o : ω)
   | dict (d : Opts)
+  | list (l : List Int)
   deriving DecidableEq, Repr
 
 /-- A Python `dict[str, Any]`, insertion ordered, keys unique. -/
